@@ -49,7 +49,7 @@ var specs = map[string]*propSpec{
 	},
 	"C03": {
 		ID: "C03", Engine: "storesim", Level: "fault_enumeration",
-		QuickRuns: 1500, ThoroughRuns: 80000, Chunk: 20, WatchdogS: 400,
+		QuickRuns: 3000, ThoroughRuns: 120000, Chunk: 1, WatchdogS: 400,
 		Rule: "one evaluation = one receive/remove history on the file-per-blob store (over SimVFS) or the packed disk store (over the os shim with a simulated index) with a designated crash operation; sub-runs = crash images checked: for every lower-layer call c of the crash operation (and the instant right after it returned) the process dies before call c+1, and every crash image is materialised (process death = page cache kept; power loss = synced content + each parser-relevant prefix of appended bytes x each subset of in-place overwrites; for files each un-synced file cut at synced/middle/all), reopened, swept, re-indexed from the pack files alone, driven through a suffix of further operations, swept and re-indexed again; distinct = distinct (store, maxFileSize, op kinds, crash op, call count)",
 		Real: []string{"pkg/blobserver/files", "pkg/blobserver/diskpacked (incl. Reindex, StreamBlobs, delete)"},
 		Stub: []string{"SimVFS (files.VFS)", "os/syscall shim + simdisk crash materialisation", "SimKV index (assumed crash-atomic and durable per call)"},
